@@ -86,7 +86,10 @@ class Enc:
             kids.append(n)
         elif value is not None:
             kids.append(self.octets(value))
-        return self.seq(kids, kind="SEQ")
+        n = self.seq(kids, kind="SEQ")
+        if len(kids) == 3:
+            n.meta = "all-present"  # every defined component is there: whatever follows is beyond the definition
+        return n
 
     def filter(self, f) -> Node:
         k = f[0]
@@ -133,6 +136,8 @@ class Enc:
                 if auth[2] is not None:
                     kids.append(self.octets(auth[2]))
                 a = self.seq(kids, cls=CTX, num=3, kind="SEQ")
+                if len(kids) == 2:
+                    a.meta = "all-present"
             return self.seq([self.integer(version), self.string(name), a], cls=APPL, num=tag)
         if op == "BindResponse":
             result, sasl = body
